@@ -130,11 +130,13 @@ func (e StdEng) Reduce(fn interface{}, a Tensor, axis int, defaultValue interfac
 		dimSize = a.Shape()[axis]
 		err = e.E.ReduceLast(typ, dataA, dataReuse, dimSize, defaultValue, fn)
 	default:
-		dim0 := a.Shape()[0]
+		// view the tensor as (outer, axis, inner): everything before the axis is the
+		// outer dimension, not just axis 0 (they coincide only up to rank 3)
 		dimSize := a.Shape()[axis]
-		outerStride := a.Strides()[0]
 		stride := a.Strides()[axis]
-		expected := reuse.Strides()[0]
+		outerStride := dimSize * stride
+		dim0 := a.DataSize() / outerStride
+		expected := stride
 		err = e.E.ReduceDefault(typ, dataA, dataReuse, dim0, dimSize, outerStride, stride, expected, fn)
 	}
 	retVal = reuse
@@ -175,11 +177,13 @@ func (e StdEng) OptimizedReduce(a Tensor, axis int, firstFn, lastFn, defaultFn, 
 		dimSize = a.Shape()[axis]
 		err = e.E.ReduceLast(typ, dataA, dataReuse, dimSize, defaultValue, lastFn)
 	default:
-		dim0 := a.Shape()[0]
+		// view the tensor as (outer, axis, inner): everything before the axis is the
+		// outer dimension, not just axis 0 (they coincide only up to rank 3)
 		dimSize := a.Shape()[axis]
-		outerStride := a.Strides()[0]
 		stride := a.Strides()[axis]
-		expected := reuse.Strides()[0]
+		outerStride := dimSize * stride
+		dim0 := a.DataSize() / outerStride
+		expected := stride
 		err = e.E.ReduceDefault(typ, dataA, dataReuse, dim0, dimSize, outerStride, stride, expected, defaultFn)
 	}
 	retVal = reuse
